@@ -292,9 +292,10 @@ def _is_neq(g, a, b, pol):
 def state_coverage(ctx):
     """every component of the constructor-established state of AtLeast is read by to_json (or re-derived by a subclass ctor)"""
     P = ctx.program
-    ci = P.func(FAMILY_ROOT + ".__init__")
+    # the specified state = attributes the *reference* constructor assigns (derived caches a constructor may add are not state)
+    rm, rfi, meta = ctx.contracts.refs[(FAMILY_ROOT + ".__init__", None)]
     state = set()
-    for n in ast.walk(ci.node):
+    for n in ast.walk(rfi.node):
         if isinstance(n, ast.Attribute) and isinstance(n.ctx, ast.Store) and isinstance(n.value, ast.Name) and n.value.id == "self":
             state.add(n.attr)
     wt = T.norm(T.FuncLower(P, P.func(FAMILY_ROOT + ".to_json")).term())
